@@ -37,4 +37,12 @@ Max43     == [c \in {"A", "B"} |-> IF c = "A" THEN 4 ELSE 2]
 DgramOps  == [c \in {"A", "B"} |-> IF c = "A" THEN {"Socket", "BindNone", "BindAddr", "BindName", "RecvFrom", "Close"}
                                               ELSE {"Socket", "BindNone", "SendTo", "ConnectAddr", "Close"}]
 KindsLR   == [c \in {"A", "B"} |-> IF c = "A" THEN {"ldl", "raw"} ELSE {"ldl"}]
+\* socket life cycle: connections that are ended by the peer (DISC), by FRMR or by a UI PDU before the application
+\* closes the socket, then re-use of the address / the service name
+LifeOps  == [c \in {"A", "B"} |-> IF c = "A" THEN {"Socket", "BindName", "BindAddr", "Listen", "Accept", "Recv", "PeerFrmr", "Close"}
+                                              ELSE {"Socket", "ConnectName", "ConnectAddr", "SendTo", "Recv", "PeerFrmr", "Resolve", "Close"}]
+SeqLife  == [c \in {"A", "B"} |-> IF c = "A" THEN <<"dlc", "dlc">> ELSE <<"dlc", "ldl">>]
+SeqLifeT == [c \in {"A", "B"} |-> IF c = "A" THEN <<"dlc", "dlc", "dlc">> ELSE <<"dlc", "ldl", "dlc">>]
+Max43L   == [c \in {"A", "B"} |-> IF c = "A" THEN 4 ELSE 3]
+BAL      == {5}
 =============================================================================
